@@ -260,7 +260,14 @@ def r16_3(chk):
     ok_l = bool(lowers & epoch_names)
     chk.inst("R16.3", f"{f.ref}::impulse-window-upper", ok_u, "impulse applied only if dated at or before the target date" if ok_u
              else f"no upper bound `{man}.date <= {date}` in `{unparse(a.test)}`", loc(f, a))
-    chk.inst("R16.3", f"{f.ref}::impulse-window-lower", ok_l, "impulse applied only if dated at or after the epoch of the state" if ok_l
+    # H3: the window is half-open -- a state propagated to the very date of an impulse contains its dv and keeps the maneuver
+    # list, so the lower bound must be strict (epoch < man.date <= date), as in ImpulsiveMan.check of the integrator
+    strict_l = {strict for s_, o, strict in b if s_ == "lower" and o in epoch_names}
+    strict_u = {strict for s_, o, strict in b if s_ == "upper" and o == date}
+    ok_h3 = strict_l == {True} and strict_u == {False}
+    chk.inst("R16.3", f"{f.ref}::impulse-window-half-open", ok_h3, "epoch < man.date <= date: an impulse dated exactly at the epoch of a state is already in it" if ok_h3
+             else f"`{unparse(a.test)}`: the window must be open at the epoch and closed at the target date, else a state that stops on the maneuver date gets the impulse twice (t1 then t2 != t1+t2)", loc(f, a))
+    chk.inst("R16.3", f"{f.ref}::impulse-window-lower", ok_l, "impulse applied only if dated after the epoch of the state" if ok_l
              else f"test `{unparse(a.test)}` does not bound {man}.date from below: a burn dated before the epoch is applied "
                   f"(back to its date, dv, forward again) and, since results keep the maneuvers, t1 then t2 != t1+t2", loc(f, a))
     # --- continuous arm
@@ -296,7 +303,7 @@ def r16_3(chk):
     ok = bounds == {("lower", "self.start", False), ("upper", "self.stop", True)}
     chk.inst("R16.3", f"{mc.ref}::half-open", ok, "thrust window is [start, stop)" if ok else
              f"returns {unparse(rets[0].value) if rets else '?'}", loc(mc, mc.node))
-    chk.floor("R16.3", 9)
+    chk.floor("R16.3", 10)
 
 
 HELPER = "beyond/utils/cwhelper.py"
